@@ -180,6 +180,21 @@ def rule_r8(ctx):
                          "%s puts the operation %s in front of (or inside) the wait list %s: operations that were posted earlier "
                          "are served later, so one peer's messages are handed out in the wrong order"
                          % (c.node["fn"], show(a), show(f.expand(c.node["args"][0]))))
+        for t in f.sites():
+            n = t.node
+            rhs = None
+            if n.get("k") == "asg":
+                rhs, ty = f.expand(n["rhs"]), n["lhs"].get("t") or ""
+            elif n.get("k") == "decls":
+                for d in n["d"]:
+                    if d.get("init") is not None and "aio" in (d.get("t") or ""):
+                        x = f.expand(d["init"])
+                        if x is not None and x.get("k") == "call" and x.get("fn") == "nni_list_last":
+                            rhs, ty = x, d.get("t") or ""
+            if rhs is not None and rhs.get("k") == "call" and rhs.get("fn") == "nni_list_last" and "aio" in ty:
+                ctx.fail(r, f, "waiting aio taken from the tail", t.line,
+                         "%s serves the wait list %s from its tail: operations that were posted earlier are served later"
+                         % (f.name, show(f.expand(rhs["args"][0]))))
     if n_app < 40:
         raise AnalysisBroken("only %d tail appends of user aios seen" % n_app)
     r.obligations += n_app
